@@ -92,6 +92,22 @@ def _to(*a):
 
 
 signal.signal(signal.SIGALRM, _to)
+if w.get("op") == "bond-records":
+    # an undamaged file: every BOND record is a bond of the molecule, whatever its type token
+    for bt in ml.BondType:
+        m = ml.Molecule.load_mol2(ml.files.benzene_mol2) if hasattr(ml.files, "benzene_mol2") else ens()[0]
+        m = ml.Molecule(m)
+        m.bonds[0].btype = bt
+        try:
+            txt = m.dumps_mol2()
+            r = ml.Molecule.loads_all_mol2(txt)
+        except BaseException:
+            continue
+        if any(x.n_bonds != m.n_bonds or x.n_atoms != m.n_atoms for x in r):
+            print(f"REPRODUCED: a molecule with a {bt.name} bond is written with {m.n_bonds} bond records and read back with {[x.n_bonds for x in r]} bonds")
+            sys.exit(0)
+    print("not reproduced")
+    sys.exit(1)
 if w.get("op") == "attr-truncation":
     t = ("@<TRIPOS>MOLECULE\nattrmol\n2 1 0 0 0\nSMALL\nNO_CHARGES\n\n@<TRIPOS>ATOM\n1 C1 0.0 0.0 0.0 C.3 1 UNL 0.0\n2 O1 1.2 0.0 0.0 O.3 1 UNL 0.0\n"
          "@<TRIPOS>BOND\n1 1 2 1\n@<TRIPOS>UNITY_ATOM_ATTR\n1 1\ncharge 0\n2 2\ncharge -1\nnote x\n@<TRIPOS>UNITY_BOND_ATTR\n1 1\norder 1\n")
